@@ -399,6 +399,11 @@ fn process_withdrawals_for_single_pool<C: ContentAddrStore>(
         .fold(0u128, |a, b| a.saturating_add(b));
     // get the state
     let mut pool_state = state.pools.get(pool).unwrap();
+    // more liquidity tokens than the pool ever issued cannot be redeemed, and `withdraw` asserts that; such tokens cannot come
+    // from deposits, only from a faucet (off mainnet), and the requests are then left as they are
+    if total_liqs > pool_state.liqs {
+        return;
+    }
     let (total_left, total_write) = pool_state.withdraw(total_liqs);
     state.pools.insert(*pool, pool_state);
     // divvy up the lefts and rights
